@@ -14,7 +14,7 @@ from .. import core, gen, obs, refint
 
 DOCS = [
     {"s": "ab", "i": 5, "f": 1.5, "b": True, "n": None, "l": [1, 2, 3], "ls": ["a", "b"], "le": [], "m": {"x": 1, "y": "s"}, "me": {},
-     "lm": [{"x": 1}, {"x": 2}, {"y": 3}], "nest": {"k": {"v": 2}}},
+     "lm": [{"x": 1}, {"x": 2}, {"y": 3}], "nest": {"k": {"v": 2}, "7": 2, "200": {"v": "ab"}}},
     {"s": "zz", "i": 2, "f": 2.5, "b": False, "n": 0, "l": [5], "ls": ["ab", 5, None], "le": [[]], "m": {"x": "ab"}, "me": {"q": {}},
      "lm": [{"x": 1, "y": 1}], "nest": {"k": 7}},
     {"s": "", "i": "5", "l": [], "ls": "a", "m": [{"x": 1}], "lm": {"x": 1, "y": {"x": 1}}, "nest": {}},
@@ -37,6 +37,8 @@ QUERIES.update({
     "m[keys in ['x',5]]": K("m") + KF("in", ["x", 5]), "m[keys in [true,'y',/x/]]": K("m") + KF("in", [True, "y", {"$re": "x"}]), "m[keys not in [5,'y']]": K("m") + KF("not in", [5, "y"]),
     "m[keys==5]": K("m") + KF("==", 5), "m[keys!=5]": K("m") + KF("!=", 5), "me[keys=='q']": K("me") + KF("==", "q"),
     "lm[keys in ['y','x']].x": K("lm") + KF("in", ["y", "x"]) + K("x"), "nest[keys=='k'].*": K("nest") + KF("==", "k") + [["all"]],
+    # digits-only keys (written quoted): a map entry of that name, or the list element at that index
+    'nest."7"': K("nest", "7"), 'nest."200".v': K("nest", "200", "v"), 'l."1"': K("l", "1"), 's."0"': K("s", "0"),
 })
 LITS = {"5": 5, "2": 2, "1.5": 1.5, '"ab"': "ab", '"a"': "a", "true": True, "null": None, "[1,2,3]": [1, 2, 3], "[5]": [5], "{x:1,y:s}": {"x": 1, "y": "s"},
         "/^a/": {"$re": "^a"}, "r[1,5]": {"$range": [1, 5, "[", "]"]}, "r(1.0,2.0)": {"$range": [1.0, 2.0, "(", ")"]}, '[5,"ab"]': [5, "ab"]}
@@ -246,7 +248,7 @@ def main(tier, seed):
     unspec_pct = int(100 * c["unspec"] / max(1, res.cases))
     floor = {"cases": (res.cases, 20000), "statuses_seen": (seen, 4), "distinct_classes": (len(res.distinct), 2000), "decided_percent": (100 - unspec_pct, 60)}
     return core.finish("C01", tier, seed, res, t0,
-                       rule="(A) exhaustive: 40 query shapes (14 of them map-key filters) x some/all x (9 unary operators x 4 polarity spellings + 6 binary operators x 3 polarity spellings x up to 14 "
+                       rule="(A) exhaustive: 44 query shapes (14 of them map-key filters, 4 with digits-only keys) x some/all x (9 unary operators x 4 polarity spellings + 6 binary operators x 3 polarity spellings x up to 14 "
                             "literals) x 3 documents = every single-clause program of that universe; (B) random core-language programs x random documents (quick 5k, "
                             "thorough 250k); judged by the reference interpreter; distinct = (kind, operator, effective polarity, some, query shape, status)",
                        floor=floor, exhaustive=True,
